@@ -192,3 +192,10 @@ def replay(scn):
             if what:
                 viol.append(dict(what=what, sig=signature(scn, sp, kind), variant="kind=%s spelling=%s" % (kind, sp)))
     return dict(violations=viol, calls=calls)
+
+
+
+def post(tier, seed, ctx):
+    """code -> spec: randomly driven calls (up to 4-d, axes up to 5 labels) recorded and validated by TLC against spec/TraceOps.tla"""
+    from .. import trace_ops
+    trace_ops.validate(PROP, tier, seed, ctx, ['put'])
